@@ -41,7 +41,7 @@ const sitemapNS = "http://www.sitemaps.org/schemas/sitemap/0.9"
 func init() {
 	register(&Driver{
 		Name:     "xml",
-		Header:   "From ZenoV Require Import Lib.Harness Ext.FileExt Ext.Xml Ext.ExtHarness.\n",
+		Header:   "From Coq Require Import Uint63.\nFrom ZenoV Require Import Lib.Harness Ext.Pack Ext.FileExt Ext.Xml Ext.ExtHarness.\n",
 		CaseType: "xcase",
 		Footer:   "\nDefinition DIFF := Eval vm_compute in xdiffs cases.\nPrint DIFF.\nDefinition MON := Eval vm_compute in xmons cases.\nPrint MON.\n",
 		Rule:     "one case = one XML document rendered from a generated token tree (sitemap, sitemap index, RSS, Atom and free-form flavours; depth <= 5; attributes in either quote style; entity and numeric character references; CDATA; comments, processing instructions and DOCTYPE carrying decoy URLs; namespace prefixes and xmlns declarations; compact or pretty-printed with LF/CRLF; a separate stream of damaged renderings) with absolute http(s) URLs planted as attribute values and as text/CDATA nodes (bare, or followed by white space as pretty-printers leave it); distinct by input text; non-trivial when a planted URL sits in a node at depth >= 2",
